@@ -101,7 +101,7 @@ CLAIMED = {
         technique='Lean 4 proof: induction over histories with a potential/invariant argument on a hand-written arithmetic model; differential correspondence check under a ledger allocator'),
     'C16': dict(category='proof', text="Lean over M1: cfg_irrelevant (from every well-formed state, every operation gives the SAME outcome and state whether overflow checks and debug assertions are on or off: no unchecked +/- of the model leaves usize, no debug_assert fires), parity_irrelevant (running under any allocator parity and then forgetting parity = forgetting parity first and running with the all-even allocator: a simulation, so outcomes, contents, lengths, capacities and uniqueness coincide), erase_WFx, abs_erase. T1: inventory of every configuration-dependent site of src/** (83: cfg/cfg_attr attributes, cfg! macros, 28 debug assertions) regenerated each run and compared by a `decide +kernel` certificate with the reviewed, classified list (a new debug_assert / cfg branch breaks it). T2: identical seeded scripts (random walks, boundary sweep, pair-exhaustive) run on the real crate under {debug, release} x {even, odd} (thorough: alternating parity, no-default-features and extra-platforms builds) and the observable projection (outcome incl. panics, every handle's kind/len/capacity/is_unique/contents) is compared script by script; each configuration is also judged against M1. PARTIAL for the feature-set clause: std/no-std/extra-platforms are not distinguished by the model (review of the cfg inventory + T2 in the thorough tier only).", design='§7 C16', note="Trusted: as C01 (hand-written M1 tied by T2) + the review of the cfg-site inventory (class per site) + T1 extractor for it; release profile of the harness = overflow-checks off, debug-assertions off.",
         technique='Lean 4 proof: configuration-independence and parity-simulation theorems over a hand-written executable model of the core + per-run decide certificate over a site inventory translated from the source; differential runs of the real crate across configurations'),
-    'C17': dict(category='proof', text="Lean over M6 (Model/Adv.lean: a Buf driven by an arbitrary script of lies — any claimed remaining, any real chunk length, panics at any call — and the crate's consumers transliterated with every unsafe step as a bounds-checked primitive): for every script, argument and fuel no consumer reaches UB (tryCopyToSlice/copyToSlice, the fixed-width getter fast path with its unsafe array read, variable-width getters, get_u8, default put into a fixed destination, BytesMut::put / Vec::put, IntoIter, Reader::read, Take::chunks_vectored; round 8: default copy_to_bytes through Take, Take::copy_to_bytes, Chain::copy_to_bytes, Chain::chunks_vectored, Chain getters, default put into Limit<&mut BytesMut>); Take and Limit provably bound what a lying source can append (putGrowTakeLoop_bound, putLimitLoop_bound); results are exactly destination-sized, fixed destinations never written past their end, growing destinations keep len <= cap; non-vacuity: the reserve-from-remaining() variant of the put loop provably reaches UB. T1: inventory of the 41 unsafe sites of the consumer code (FNV fingerprints of the normalised text, incl. bodies of unsafe fns and from_owner's body) regenerated each run and compared by `decide +kernel` with the reviewed list. T2: 4000 (thorough 40000) seeded lie scripts x 20 consumers x sizes, lying owners (as_ref differs per call / panics), iterators with wrong size hints, on the real crate under the ledger allocator (red zones, poison, layout-exact frees, balance after unwinding, neighbour-handle canary); outcome compared with M6's prediction for all 20 consumers of the scripted-lie adversary. PARTIAL: the other adversary families (stale / flicker / cursor Bufs, from_owner, Extend/FromIterator, serde) rest on T2's allocator oracle and the unsafe-site review only.", design='§7 C17', note="Trusted: Lean kernel; M6 hand transliteration (tied by T2 outcome comparison + T1 unsafe-site fingerprints); the review classes of Model/Sites.lean; ledger allocator as out-of-bounds-write / double-free / leak oracle (reads inside a live allocation are only visible through values).",
+    'C17': dict(category='proof', text="Lean over M6 (Model/Adv.lean: a Buf driven by an arbitrary script of lies — any claimed remaining, any real chunk length, panics at any call — and the crate's consumers transliterated with every unsafe step as a bounds-checked primitive): for every script, argument and fuel no consumer reaches UB (tryCopyToSlice/copyToSlice, the fixed-width getter fast path with its unsafe array read, variable-width getters, get_u8, default put into a fixed destination, BytesMut::put / Vec::put, IntoIter, Reader::read, Take::chunks_vectored; round 8: default copy_to_bytes through Take, Take::copy_to_bytes, Chain::copy_to_bytes, Chain::chunks_vectored, Chain getters, default put into Limit<&mut BytesMut>); Take and Limit provably bound what a lying source can append (putGrowTakeLoop_bound, putLimitLoop_bound); results are exactly destination-sized, fixed destinations never written past their end, growing destinations keep len <= cap; non-vacuity: the reserve-from-remaining() variant of the put loop provably reaches UB. Generalised (Model/AdvGen.lean, Props/C17Gen.lean): the same consumers and theorems over an adversary whose answers may change on EVERY call (an arbitrary function of advance count and call count — a Buf with interior mutability, the double-fetch adversary); strictness: a re-fetching reader that is safe against every scripted adversary provably reaches UB on the flicker adversary, the crate's single-fetch fast path does not; the judge evaluates the general model (instance ofScript) next to M6 on every modelled case. T1: inventory of the 41 unsafe sites of the consumer code (FNV fingerprints of the normalised text, incl. bodies of unsafe fns and from_owner's body) regenerated each run and compared by `decide +kernel` with the reviewed list. T2: 4000 (thorough 40000) seeded lie scripts x 20 consumers x sizes, lying owners (as_ref differs per call / panics), iterators with wrong size hints, on the real crate under the ledger allocator (red zones, poison, layout-exact frees, balance after unwinding, neighbour-handle canary); outcome compared with M6's prediction for all 20 consumers of the scripted-lie adversary. PARTIAL: the other adversary families (stale / flicker / cursor Bufs, from_owner, Extend/FromIterator, serde) rest on T2's allocator oracle and the unsafe-site review only.", design='§7 C17', note="Trusted: Lean kernel; M6 hand transliteration (tied by T2 outcome comparison + T1 unsafe-site fingerprints); the review classes of Model/Sites.lean; ledger allocator as out-of-bounds-write / double-free / leak oracle (reads inside a live allocation are only visible through values).",
         technique='Lean 4 proof: no-UB theorems by induction on loop fuel over a hand-written executable adversary model + per-run decide certificate over an unsafe-site inventory translated from the source; fault-injection correspondence run under a ledger allocator'),
     'C05': dict(category='proof', text="Lean (Model/Conc.lean, RA-view semantics; any number of threads/handles/steps; orderings are a parameter): ra_safe — if the orderings satisfy the decidable lower bound Sufficient then no reachable state has a data race on buffer memory, a use after free or a double free; freed_no_handles; unique_is_sole (a holder that loads 1 is the only holder: no stale 1); toVec_exclusive; four tightness theorems (each bound of Sufficient is necessary). Promotable handles (Props/C05.lean over M5p: a root handle shared by reference among any number of threads, racing shallow_clone_vec CASes, non-atomically initialised control block, owner-side free / take-over of a never-promoted root, then the refcount protocol): promo_safe (no buffer race, no unordered access to the control block, no use after free, no double free), promo_once (exactly one CAS wins), owner_sees_promotion (the owner can never act on a stale KIND_VEC word), promo_freed_no_users, promo_ctrlFreed_no_users, three tightness theorems (promLoad ⊒ Acquire, promCasOk ⊒ Release, promCasFail ⊒ Acquire are necessary). T1: orderings + nine shape facts of the 32 atomic sites regenerated from the source each run, certificates `Sufficient ords` and `Promo.Sufficient pords` by decide. T2: nine loom models of the real code x five representations through the hook, ghost UnsafeCell per buffer (read on handle reads, written on deallocation by the model file's global allocator and after zero-copy conversion), exactly-once deallocation, at most one zero-copy owner.", design='§7 C05, §3 M5', note="Trusted: Lean kernel; the RA-view semantics as a model of C11's RA+relaxed fragment; M5 protocol model (hand-written, tied by T1 shape facts and loom); Rust ownership/borrowing; loom (preemption bound 3 quick / 5 thorough). The promotion protocol on the `data` word is M5p (Model/Promo.lean), tied by T1 (orderings of the promotion sites, shape facts) and loom models p2/p8.", technique='Lean 4 proof: inductive invariant over a small-step release/acquire view semantics + per-run decide certificate over orderings translated from the source; loom exploration of the real code as correspondence / failing-schedule search'),
     'C06': dict(category='proof', text="Lean (Model/Conc.lean, RA-view semantics; any number of threads/handles/steps; orderings are a parameter): ra_safe — if the orderings satisfy the decidable lower bound Sufficient then no reachable state has a data race on buffer memory, a use after free or a double free; freed_no_handles; unique_is_sole (a holder that loads 1 is the only holder: no stale 1); toVec_exclusive; four tightness theorems (each bound of Sufficient is necessary). Promotable handles (Props/C05.lean over M5p: a root handle shared by reference among any number of threads, racing shallow_clone_vec CASes, non-atomically initialised control block, owner-side free / take-over of a never-promoted root, then the refcount protocol): promo_safe (no buffer race, no unordered access to the control block, no use after free, no double free), promo_once (exactly one CAS wins), owner_sees_promotion (the owner can never act on a stale KIND_VEC word), promo_freed_no_users, promo_ctrlFreed_no_users, three tightness theorems (promLoad ⊒ Acquire, promCasOk ⊒ Release, promCasFail ⊒ Acquire are necessary). T1: orderings + nine shape facts of the 32 atomic sites regenerated from the source each run, certificates `Sufficient ords` and `Promo.Sufficient pords` by decide. T2: nine loom models of the real code x five representations through the hook, ghost UnsafeCell per buffer (read on handle reads, written on deallocation by the model file's global allocator and after zero-copy conversion), exactly-once deallocation, at most one zero-copy owner.", design='§7 C06, §3 M5', note="Trusted: Lean kernel; the RA-view semantics as a model of C11's RA+relaxed fragment; M5 protocol model (hand-written, tied by T1 shape facts and loom); Rust ownership/borrowing; loom (preemption bound 3 quick / 5 thorough). The promotion protocol on the `data` word is M5p (Model/Promo.lean), tied by T1 (orderings of the promotion sites, shape facts) and loom models p2/p8.", technique='Lean 4 proof: inductive invariant over a small-step release/acquire view semantics + per-run decide certificate over orderings translated from the source; loom exploration of the real code as correspondence / failing-schedule search'),
